@@ -32,5 +32,9 @@ $(B)/threads_r%: sched/threads.c $(LIB)
 	@mkdir -p $(B)
 	$(CC) -O1 -g -Wall -Wextra -I$(REPO)/src -DCAT_UNSOLICITED_CMD_BUFFER_SIZE=$* sched/threads.c $(REPO)/src/cat.c -lpthread -o $@
 
+$(B)/tsanaux_r%: sched/tsan_aux.c $(LIB)
+	@mkdir -p $(B)
+	$(CLANG) -O1 -g -fsanitize=thread -I$(REPO)/src -DCAT_UNSOLICITED_CMD_BUFFER_SIZE=$* sched/tsan_aux.c $(REPO)/src/cat.c -lpthread -o $@
+
 clean:
 	rm -rf build
